@@ -29,7 +29,8 @@ BASE = 1700000000            # 2023-11-14T22:13:20Z; tick k is BASE + k/2 second
 CLOCK0 = 2                   # Init of Expiry.tla
 PROPS = ['PropServeStale', 'PropServeFresh', 'PropFailKeeps', 'PropSeedStale', 'PropSeedFresh']
 ACTIONS = ['RequestHit', 'RequestFetch', 'RequestStaleServed', 'RequestError', 'SeedNoop', 'SeedFetch', 'SeedFail',
-           'Tick', 'TouchThresholdFile', 'SetThreshold', 'UpstreamFail', 'UpstreamRecover']
+           'Tick', 'TouchThresholdFile', 'SetThreshold', 'UpstreamFail', 'UpstreamRecover', 'RemoveTile']
+FILE0 = 1                    # Init: mtime of the threshold file (ticks)
 TS = 16                      # tile size in pixels
 
 
@@ -185,7 +186,8 @@ class World(object):
         self.thr_file = os.path.join(root, 'threshold-file')
         with open(self.thr_file, 'w') as f:
             f.write('x')
-        os.utime(self.thr_file, ns=(BASE * 10 ** 9, BASE * 10 ** 9))
+        ns0 = BASE * 10 ** 9 + FILE0 * 5 * 10 ** 8
+        os.utime(self.thr_file, ns=(ns0, ns0))
         self.logf = os.path.join(root, 'upstream.log')
         open(self.logf, 'w').close()
         self.log_pos = 0
@@ -313,6 +315,9 @@ class World(object):
             self.tm.cleanup()
             self.rule = ev['rule']
             self.tm = self.new_manager(self.rule)
+        elif op == 'remove':
+            with self.tm.session():
+                self.tm.remove_tile_coords([self.coord[ev['tile']]])
         elif op == 'fail':
             _Env.up = False
         elif op == 'recover':
@@ -418,6 +423,8 @@ def event_of(label):
         return {'op': 'touch'}
     if name == 'SetThreshold':
         return {'op': 'set', 'rule': {'kind': str(args[0]['kind']), 'arg': int(args[0]['arg'])}}
+    if name == 'RemoveTile':
+        return {'op': 'remove', 'tile': str(args[0])}
     if name == 'UpstreamFail':
         return {'op': 'fail'}
     if name == 'UpstreamRecover':
@@ -555,7 +562,7 @@ def detect_precedence(ctx):
     mp, cp = tlc.write_mc(d, 'Expiry', 'MC_Prec', consts_for(['t1', 't2'], 'single', False, QUICK_RULES, QUICK_SEED,
                                                               'serving', 7),
                           properties=['PropSeedStale'], constraint='MCBound', extra_defs='MCBound == TLCGet("level") <= 5')
-    r = tlc.run(mp, cp, d, workers=4, coverage=False, timeout=600)
+    r = tlc.run(mp, cp, d, workers=1, coverage=False, timeout=600)      # one worker: breadth first, shortest history
     if r.violated != 'PropSeedStale' or not r.trace:
         raise tlc.MachineryError('expected PropSeedStale to fail for ExpirePrecedence = "serving": %r\n%s' % (r, r.out[-1500:]))
     labels = [a for a, _ in r.trace[1:]]
@@ -633,10 +640,10 @@ def model_checks(ctx, prec):
         if coverage:
             # the meta path has no stale fallback: a failed refresh is reported
             expect = [a for a in ACTIONS if not (path == 'meta' and a == 'RequestStaleServed')]
-            missing = [a for a in expect if r.coverage.get(a, (0, 0))[0] == 0]
+            missing = [a for a in expect if r.coverage.get(a, (0, 0))[1] == 0]     # (taken, not: found new states)
             if missing:
                 raise tlc.MachineryError('Expiry.tla %s: actions never taken: %s' % (name, missing))
-            if path == 'meta' and r.coverage.get('RequestStaleServed', (0, 0))[0] != 0:
+            if path == 'meta' and r.coverage.get('RequestStaleServed', (0, 0))[1] != 0:
                 raise tlc.MachineryError('Expiry.tla %s: stale fallback on the meta path?' % name)
         else:
             ctx.add_tlc('Expiry/' + name, r)
@@ -657,6 +664,117 @@ def reproduce_counterexample(ctx, r, path, backend):
     else:
         raise tlc.MachineryError('Expiry.tla violates %s but the code does not follow the counterexample (%s): model '
                                  'and code disagree' % (r.violated, res[1]))
+
+
+# ---- class cover: one shortest TLC behaviour per class of transition ----------------------------
+def _dot_string(line, start):
+    """the quoted string that starts at line[start] == '"' (dot escapes), returns (text, index after it)"""
+    out = []
+    i = start + 1
+    n = len(line)
+    while i < n:
+        c = line[i]
+        if c == '\\':
+            nx = line[i + 1]
+            out.append('\n' if nx == 'n' else nx)
+            i += 2
+            continue
+        if c == '"':
+            return ''.join(out), i + 1
+        out.append(c)
+        i += 1
+    raise ValueError('unterminated string in dot file')
+
+
+_EDGE = re.compile(r'^(-?\d+) -> (-?\d+) \[label=')
+_NODE = re.compile(r'^(-?\d+) \[label=')
+
+
+def parse_dot(path):
+    """`-dump dot,actionlabels` -> (states: id -> dict, edges: [(src, label, dst)], initial ids)"""
+    states, edges, init = {}, [], []
+    with open(path) as f:
+        for line in f:
+            m = _EDGE.match(line)
+            if m:
+                label, _ = _dot_string(line, m.end())
+                edges.append((m.group(1), label, m.group(2)))
+                continue
+            m = _NODE.match(line)
+            if m and m.group(1) not in states:
+                text, end = _dot_string(line, m.end())
+                states[m.group(1)] = tla.parse_state(text)
+                if line[end:].startswith(',style = filled'):
+                    init.append(m.group(1))
+    return states, edges, init
+
+
+def _cls(entry, thr):
+    m = int(entry['m'])
+    if m < 0:
+        return 'missing'
+    if thr is None:
+        return 'norule'
+    rel = m // 2 - thr // 2
+    return 'rel%+d%s' % (max(-2, min(2, rel)), 'h' if m % 2 else '')
+
+
+def transition_class(label, s):
+    """what kind of transition this is, seen from the property: action (= outcome), rule kinds, whether the
+    threshold has a fraction, and for every tile concerned how its second compares with the threshold second"""
+    name, args = parse_action(label)
+    rule = {'kind': str(s['rule']['kind']), 'arg': int(s['rule']['arg'])}
+    clock, file_m = int(s['clock']), int(s['fileM'])
+    thr = thr_ticks(rule, clock, file_m)
+    key = [name, bool(s['up'])]
+    if name.startswith('Request'):
+        key += [rule['kind'], thr is not None and thr % 2, tuple(_cls(s['cache'][t], thr) for t in args[0])]
+    elif name.startswith('Seed'):
+        sr = {'kind': str(args[0]['kind']), 'arg': int(args[0]['arg'])}
+        sthr = thr_ticks(sr, clock, file_m)
+        key += [rule['kind'], sr['kind'], sthr % 2,
+                tuple(sorted((_cls(e, sthr), _cls(e, thr)) for e in s['cache'].values()))]
+    elif name == 'Tick':
+        key += [int(args[0]), clock % 2]
+    elif name == 'SetThreshold':
+        key += [rule['kind'], str(args[0]['kind'])]
+    elif name == 'RemoveTile':
+        key += [rule['kind']]
+    return tuple(key)
+
+
+def class_cover(graph_file):
+    """behaviours [(label, state)] such that every transition class of the dumped state graph occurs in one"""
+    states, edges, init = parse_dot(graph_file)
+    if len(init) != 1 or not edges:
+        raise tlc.MachineryError('state graph dump: %d initial states, %d edges' % (len(init), len(edges)))
+    succ = {}
+    for a, lab, b in edges:
+        succ.setdefault(a, []).append((lab, b))
+    parent = {init[0]: None}
+    order = [init[0]]
+    for a in order:                                   # breadth first: shortest path to every state
+        for lab, b in sorted(succ.get(a, [])):
+            if b not in parent:
+                parent[b] = (a, lab)
+                order.append(b)
+    chosen = {}
+    for a in order:
+        for lab, b in sorted(succ.get(a, [])):
+            k = transition_class(lab, states[a])
+            if k not in chosen:
+                chosen[k] = (a, lab, b)
+    behs = []
+    for k, (a, lab, b) in sorted(chosen.items(), key=lambda kv: repr(kv[0])):
+        path = [(lab, states[b])]
+        x = a
+        while parent[x] is not None:
+            px, plab = parent[x]
+            path.append((plab, states[x]))
+            x = px
+        path.append(('Init', states[x]))
+        behs.append(path[::-1])
+    return behs, len(edges)
 
 
 def simulate(ctx, name, names, path, trunc, rules, seedrules, prec, num, depth, seed, maxclock):
@@ -712,7 +830,7 @@ def random_history(rng, world, nops, tally):
     """drive the real code at random, one event per spec action with its observation"""
     events = []
     names = world.names
-    clock, file_m, up = CLOCK0, 0, True
+    clock, file_m, up = CLOCK0, FILE0, True
     rule = R('none')
     cache = {n: [-1, 0] for n in names}
     err = None
@@ -735,7 +853,9 @@ def random_history(rng, world, nops, tally):
                 ev = {'op': 'touch'}
         elif k < 0.74:
             ev = {'op': 'touch'}
-        elif k < 0.84:
+        elif k < 0.78 and any(cache[n][0] >= 0 for n in names):
+            ev = {'op': 'remove', 'tile': rng.choice([n for n in names if cache[n][0] >= 0])}
+        elif k < 0.85:
             ev = {'op': 'recover' if not up else 'fail'}
         else:
             kind = rng.choice(['time', 'age', 'file'])
